@@ -3,3 +3,4 @@ pub mod tables;
 pub mod stats;
 pub mod disk;
 pub mod pool;
+pub mod chan;
